@@ -250,7 +250,7 @@ PROPS["C11"] = {
 PROPS["C06"] = {
     "lean_modules": ["StyluaModel.Props.C06"],
     "theorem_prefix": "C06_",
-    "required_theorems": ["C06_strlit", "C06_number", "C06_semicolon", "C06_sort", "C06_comment_text", "C06_paren_idem", "C06_paren_idem_faithful", "C06_paren_not_idempotent", "C06_table_multi_stable", "C06_table_single_stable", "C06_table_growth_witness", "C06_trivia"],
+    "required_theorems": ["C06_strlit", "C06_number", "C06_semicolon", "C06_sort", "C06_comment_text", "C06_paren_idem", "C06_paren_idem_faithful", "C06_paren_not_idempotent", "C06_table_multi_stable", "C06_table_single_stable", "C06_table_growth_witness", "C06_trivia", "C06_trivia_trailing"],
     "hx": [["pipe"], ["slots"], ["c05"], ["c06t"], ["c08"]],
     "level": "proof",
     "level_text": "Proof, partial — the property the technique serves least: idempotence theorems for every decision mechanism that has a model (string and number rewriting, semicolon decisions, sorted require groups, comment text, the leading-trivia loader applied to its own re-tokenised output: blank-line runs, comment lines), and a proven counterexample for the parenthesis rule (`(- -f())`, found by evaluating the model). Whether the second pass takes the same layout path as the first is a fact about Shape arithmetic and ~40 heuristics that are not modelled: it is checked on the closed sets only (corpus x 79 configurations, width sweep 1..130 of catalogue one-liners, comment-slot enumeration), whose unchanged-tree failures are listed exactly.",
@@ -324,11 +324,11 @@ PROPS["C14"] = {
 PROPS["C18"] = {
     "lean_modules": ["StyluaModel.Props.C18"],
     "theorem_prefix": "C18_",
-    "required_theorems": ["C18_json_partial", "C18_json", "C18_json_as_indexed", "C18_none_iff", "C18_ranges", "C18_unified", "C18_unified_none", "C18_header_roundtrip", "C18_unified_stale_index_rejected"],
+    "required_theorems": ["C18_json_partial", "C18_json", "C18_json_as_indexed", "C18_none_iff", "C18_ranges", "C18_unified", "C18_unified_none", "C18_unified_printed", "C18_header_roundtrip", "C18_unified_stale_index_rejected"],
     "py": [cli.c18],
     "needs_cli": True,
     "level": "proof",
-    "level_text": "Proof for the JSON producer (StyLua's own code): for every valid edit script over files of any length the mismatches, applied as line-range replacements, yield exactly the new text (the code records every inserted / deleted line since fix 4e60dbe; for the code as pinned - first line only - the statement held only when pure insertions were one line long, `C18_json_partial`, with `C18_pinned_violates` as the witness); no mismatch iff nothing differs; reported ranges are the script's. The unified format: Model/Unified.lean mirrors the code of the `similar` crate that `output_diff_unified` calls (group_diff_ops with its head / tail trimming and splitting of long equal runs, hunk headers incl. the empty-range and length-1 spellings, hunk bodies, the missing-newline marker), and `C18_unified` proves that a strict patch applier (every context / deleted line present where the header says, all four header numbers consistent with the body and with the output position, no fuzz) accepts these hunks and reproduces the new file - for every valid in-order script, files of any length and every context radius; nothing printed => files equal. The edit script itself (Myers + compaction inside `similar`) is a parameter of both models; the summary format is checked by the oracle only.",
+    "level_text": "Proof for the JSON producer (StyLua's own code): for every valid edit script over files of any length the mismatches, applied as line-range replacements, yield exactly the new text (the code records every inserted / deleted line since fix 4e60dbe; for the code as pinned - first line only - the statement held only when pure insertions were one line long, `C18_json_partial`, with `C18_pinned_violates` as the witness); no mismatch iff nothing differs; reported ranges are the script's. The unified format: Model/Unified.lean mirrors the code of the `similar` crate that `output_diff_unified` calls (group_diff_ops with its head / tail trimming and splitting of long equal runs, hunk headers incl. the empty-range and length-1 spellings, hunk bodies, the missing-newline marker), and `C18_unified` proves that a strict patch applier (every context / deleted line present where the header says, all four header numbers consistent with the body and with the output position, no fuzz) accepts these hunks and reproduces the new file - for every valid in-order script, files of any length and every context radius; nothing printed => files equal, a script with a change => a hunk is printed. The edit script itself (Myers + compaction inside `similar`) is a parameter of both models; the summary format is checked by the oracle only.",
     "level_note": "Trusted: Lean kernel; Model/Diff.lean tied by the `diffjson` correspondence and Model/Unified.lean by the `diffuni` correspondence (the bytes the binary prints must equal the model's rendering of the hunks for the script `similar` computed, and the model's strict applier must accept them - so scripts with stale index fields, which the theorem's hypothesis excludes, are still decided); edit scripts computed with the same `similar` version through the harness; `ratio() == 1.0` is modelled with exact arithmetic (f32 rounding not modelled); independent Python appliers for JSON and unified diffs; a multi-line pure insertion has not been observed between a file and its formatted form (count reported in the evidence).",
     "technique": "Lean 4 induction over edit scripts (JSON mismatches; unified hunks through a loop invariant of similar's grouping) + byte-for-byte correspondence with the real JSON / unified output + independent diff appliers as oracle",
     "rule": "40 (thorough 120) seeded corpus files + 10 special pairs (no final newline, CRLF, first / last line changes, 14 separated hunks, multi-line expansion and deletion, blank lines, already formatted, empty) x 4 output formats. ring 2 (`diffjson`): line ranges and line contents of every reported mismatch vs Model/Diff.lean; (`diffuni`): the complete stdout of `--check --output-format unified` vs the rendering of Model/Unified.lean's hunks, plus the model's strict applier on them. ring 3: applying the JSON mismatches / the unified diff to the original gives the library's output byte for byte; a diff is printed iff the file differs (all formats). distinct_nontrivial = distinct scripts.",
